@@ -488,7 +488,7 @@ def _late_case(draw, tier):
     # prefixes of earlier examples, which in a small budget would repeat one choice many times)
     mix = _mix(cfg, draw(st.integers(0, 10 ** 6)))
     cfg["keep"] = mix % 3 != 0
-    is_large = (mix // 3) % 3 == 0
+    is_large = (mix // 3) % 2 == 0
     pool = large if (is_large and cfg["keep"]) else _LATE_SMALL
     if not cfg["keep"] and tier == "quick":
         pool = tuple(x for x in _LATE_SMALL if x <= 128)
@@ -605,7 +605,7 @@ def _dir_long_case(draw, tier):
     cfg = _long_params(draw, 2100)
     mix = _mix(cfg, draw(st.integers(0, 10 ** 6)))
     cfg["keep"] = mix % 3 != 0
-    sizes = T.SIZES[:-1] if tier == "quick" else T.SIZES
+    sizes = T.SIZES[:-1] + T.SIZES[-4:-1] if tier == "quick" else T.SIZES + T.SIZES[-4:]
     if not cfg["keep"]:
         sizes = tuple(x for x in sizes if x <= (257 if tier == "quick" else 1025))
     cfg["n"] = sizes[(mix // 3) % len(sizes)]
